@@ -260,8 +260,8 @@ def check_renderings(rends, steps, model_out=None):
         cls, err = build(r["src"])
         if cls is None:
             lines = ["err 1 " + err]
-            sems.append(dict(err="err 1"))
-            traces.append(["not built: " + err])
+            sems.append(dict(err="err 1" if err.startswith("InvalidDefinition") else "err " + err))
+            traces.append(["not built: " + err.split(":")[0]])
         else:
             lines = extract(cls)
             sems.append(semantic(lines))
